@@ -8,7 +8,7 @@ from ..harness import qcall
 
 ID = "C03"
 LEVEL = "exploration"
-BUDGET = {"quick": 480, "thorough": 6000}
+BUDGET = {"quick": 480, "thorough": 48000}
 TECHNIQUE = "property-based testing: generated plotfiles, exhaustive inner enumeration of option sets x limits x modes"
 RULE = ("Hypothesis-generated 2D/3D plotfiles (as C01: scattered / non-monotone layouts, special floats, non-zero "
         "origin, anisotropic, 1-3 levels, both header styles) and, per plotfile, exhaustively all 2^4 option sets "
